@@ -59,14 +59,16 @@ class RuleDef:
     title: str
     fn: Callable
     floor: int = 1   # minimum number of obligations the rule must produce (no vacuous pass)
+    evidence: bool = False   # failures name a construct that is wrong wherever it occurs (not a mismatch with a shape template)
 
 
 RULES: Dict[str, List[RuleDef]] = {}
 
 
-def rule(property_id: str, rid: str, kind: str, title: str, floor: int = 1):
+def rule(property_id: str, rid: str, kind: str, title: str, floor: int = 1, evidence: bool = False):
     def deco(fn):
-        RULES.setdefault(property_id, []).append(RuleDef(property_id, f"{property_id}.{rid}", kind, title, fn, floor))
+        RULES.setdefault(property_id, []).append(RuleDef(property_id, f"{property_id}.{rid}", kind, title, fn, floor, evidence))
+        fn._evidence = evidence
         return fn
     return deco
 
@@ -77,6 +79,7 @@ class RuleCtx:
         self.rd = rd
         self.obls: List[Obligation] = []
         self.notes: List[str] = []
+        self.evidence = rd.evidence
 
     def _site(self, site):
         if isinstance(site, FuncInfo):
@@ -109,6 +112,17 @@ class RuleCtx:
                                         f"cannot decide `{what}`: {q.rsplit('.', 1)[-1]} is formulated with {', '.join(sorted(foreign))}, "
                                         f"which the reference formulation does not use; found {ftxt[:120]}", f, line or l, role))
             return
+        if "@mutated" in ftxt:
+            self.obls.append(Obligation(self.rd.property_id, self.rd.rid, self.rd.kind, q, "error",
+                                        f"cannot decide `{what}`: the value is completed by an in-place library call (numpy.fill_diagonal, numpy.putmask, out= ...) "
+                                        f"that the term language does not model: {ftxt[:120]}", f, line or l, role))
+            return
+        rew = self._reformulated(site)
+        if rew:
+            self.obls.append(Obligation(self.rd.property_id, self.rd.rid, self.rd.kind, q, "error",
+                                        f"cannot decide `{what}`: {rew}; this rule is a template of the reference formulation, so its mismatch "
+                                        f"says nothing about behaviour here (found {ftxt[:100]})", f, line or l, role))
+            return
         hit = []
         if template is not None:
             import re as _re
@@ -130,6 +144,52 @@ class RuleCtx:
                    "numpy.repeat", "numpy.concatenate", "numpy.searchsorted", "numpy.flatnonzero", "numpy.nonzero", "numpy.where", "numpy.einsum",
                    "numpy.tensordot", "numpy.vectorize", "numpy.apply_along_axis", "numpy.fromiter", "numpy.lib.stride_tricks.", "operator.",
                    "collections.")
+
+    # Most rules compare the shape of a computation with a template of the reference formulation.  Rules registered with
+    # evidence=True instead report a construct that is wrong wherever it occurs (a write to a caller-owned object found by the
+    # ownership analysis, a handler that swallows an error, module-level state, a determinant formed, a path on which a phase is
+    # skipped ...): those are never subject to the abstention below.
+    # calibrated on the independent rounds (DESIGN 11.6): 4 of 117 seeded regressions and 33 of 76 equivalent re-formulations
+    # re-write a function this much
+    REWRITE_MIN_UNMATCHED = 16
+    REWRITE_MAX_RETAINED = 0.30
+
+    def _reformulated(self, site) -> str:
+        """Non-empty when the rule is a shape template and a function it looks at has been re-written beyond recognition
+        (sa/similarity.py): the rule abstains instead of reporting a violation."""
+        if self.evidence or not isinstance(site, FuncInfo):
+            return ""
+        ana = self.ana
+        dist = ana.__dict__.get("_ref_distance")
+        if dist is None:
+            from .similarity import distance
+            try:
+                dist = distance(ana.prog)
+            except Exception:
+                dist = {}
+            ana.__dict__["_ref_distance"] = dist
+        if not dist:
+            return ""
+        heavy = {q: v for q, v in dist.items() if v[0] >= self.REWRITE_MIN_UNMATCHED and v[3] < self.REWRITE_MAX_RETAINED}
+        if not heavy:
+            return ""
+        cache = ana.__dict__.setdefault("_reach_cache", {})
+        reach = cache.get(site.qualname)
+        if reach is None:
+            try:
+                reach = {site.qualname} | set(ana.res.reachable([site.qualname]))
+            except Exception:
+                reach = {site.qualname}
+            reach = {getattr(x, "qualname", x) for x in reach}
+            cache[site.qualname] = reach
+        inv = getattr(ana.prog, "renamed", {})
+        rel = [q for q in heavy if q in reach or inv.get(q) in reach]
+        if not rel:
+            return ""
+        q = sorted(rel, key=lambda k: -heavy[k][0])[0]
+        u, n, r = heavy[q][:3]
+        return (f"{q.split('fast_ticc.')[-1]} has been re-written ({u} statement lines differ from its {n}-line reference formulation, "
+                f"{heavy[q][3]:.0%} of the reference statements survive)")
 
     def _foreign_combinators(self, site):
         if not isinstance(site, FuncInfo):
@@ -173,10 +233,14 @@ class RuleCtx:
         only / drop: regular expressions matched at the start of the role - the including property keeps just the obligations that are necessary conditions of *it*
         (a sibling property's rule usually proves more than the includer needs)."""
         n0 = len(self.obls)
+        saved_ev = self.evidence
+        self.evidence = getattr(fn, "_evidence", False)
         try:
             fn(self)
         except (AnalysisError, Opaque) as e:
             self.error(self.rd.rid, f"cannot decide ({getattr(fn, '__module__', '').split('.')[-1]}.{getattr(fn, '__name__', '?')}): {e}")
+        finally:
+            self.evidence = saved_ev
         if only is not None or drop is not None:
             kept = []
             for o in self.obls[n0:]:
